@@ -8,7 +8,7 @@ their elementary interactions.
 -/
 namespace Tbfmm
 
-variable (w : Nat → Nat) (L : Nat) (po : Nat → List Nat)
+variable (w : Nat → Nat) (L : Nat) (po po' : Nat → List Nat)
 
 theorem foldl_addR_fun (ps : List Nat) (f : Nat → Nat) (s : State) :
     (∀ p', (ps.foldl (fun s p => s.addR p (f p)) s).r p' = s.r p' + ps.count p' * f p') ∧
@@ -31,7 +31,7 @@ theorem foldl_addR_fun (ps : List Nat) (f : Nat → Nat) (s : State) :
 
 /-- contribution of an elementary interaction to the multipole `(lv, i)`, reading the state `s0` -/
 def cM (s0 : State) (lv i : Nat) : Elem → Nat
-  | .p2m leaf _ => if (L, leaf) = (lv, i) then sumW w (po leaf) else 0
+  | .p2m leaf _ => if (L, leaf) = (lv, i) then sumW w (po' leaf) else 0
   | .m2m level p c _ => if (level, p) = (lv, i) then s0.m (level+1) c else 0
   | _ => 0
 /-- contribution to the local `(lv, i)` -/
@@ -44,6 +44,7 @@ def cR (s0 : State) (p' : Nat) : Elem → Nat
   | .l2p leaf _ => (po leaf).count p' * s0.l L leaf
   | .p2p src tgt _ => (po tgt).count p' * sumW w (po src) + (po src).count p' * sumW w (po tgt)
   | .p2pInner leaf => (po leaf).count p' * (sumW w (po leaf) - w p')
+  | .p2pTsm src tgt _ => (po tgt).count p' * sumW w (po' src)
   | _ => 0
 
 def sumOver {α} (xs : List α) (f : α → Nat) : Nat := (xs.map f).sum
@@ -68,21 +69,21 @@ theorem sumOver_zero {α} (xs : List α) (f : α → Nat) (h : ∀ x ∈ xs, f x
   | cons x xs ih => rw [sumOver_cons, h x (by simp), ih (fun y hy => h y (by simp [hy]))]
 
 /-- **P2M phase** -/
-theorem phase_p2m (cs : List Call) (hcs : ∀ c ∈ cs, ∃ leaf, c = .p2m leaf (po leaf)) (s : State) :
-    (∀ lv i, (applyCalls w L po po s cs).m lv i = s.m lv i + sumOver (cs.flatMap elemsOfCall) (cM w L po s lv i)) ∧
-    (∀ lv i, (applyCalls w L po po s cs).l lv i = s.l lv i) ∧ (∀ p, (applyCalls w L po po s cs).r p = s.r p) := by
+theorem phase_p2m (cs : List Call) (hcs : ∀ c ∈ cs, ∃ leaf, c = .p2m leaf (po' leaf)) (s : State) :
+    (∀ lv i, (applyCalls w L po po' s cs).m lv i = s.m lv i + sumOver (cs.flatMap elemsOfCall) (cM w L po' s lv i)) ∧
+    (∀ lv i, (applyCalls w L po po' s cs).l lv i = s.l lv i) ∧ (∀ p, (applyCalls w L po po' s cs).r p = s.r p) := by
   induction cs generalizing s with
   | nil => simp [applyCalls, sumOver]
   | cons c cs ih =>
     obtain ⟨leaf, rfl⟩ := hcs c (by simp)
-    obtain ⟨h1, h2, h3⟩ := ih (fun c hc => hcs c (by simp [hc])) (applyCall w L po po s (.p2m leaf (po leaf)))
+    obtain ⟨h1, h2, h3⟩ := ih (fun c hc => hcs c (by simp [hc])) (applyCall w L po po' s (.p2m leaf (po' leaf)))
     simp only [applyCalls, List.foldl_cons] at h1 h2 h3 ⊢
     refine ⟨?_, ?_, ?_⟩
     · intro lv i
       rw [h1, List.flatMap_cons, sumOver_append]
       simp only [applyCall, addM_m, elemsOfCall, sumOver_cons, sumOver_nil, cM]
-      have : sumOver (cs.flatMap elemsOfCall) (cM w L po (s.addM L leaf (sumW w (po leaf))) lv i) =
-          sumOver (cs.flatMap elemsOfCall) (cM w L po s lv i) := by
+      have : sumOver (cs.flatMap elemsOfCall) (cM w L po' (s.addM L leaf (sumW w (po' leaf))) lv i) =
+          sumOver (cs.flatMap elemsOfCall) (cM w L po' s lv i) := by
         apply sumOver_congr
         intro e he
         rw [List.mem_flatMap] at he
@@ -99,10 +100,10 @@ end Tbfmm
 
 namespace Tbfmm
 
-variable (w : Nat → Nat) (L : Nat) (po : Nat → List Nat)
+variable (w : Nat → Nat) (L : Nat) (po po' : Nat → List Nat)
 
 theorem sum_children_m2m (s : State) (level p lv i : Nat) (children : List (Nat × Nat)) :
-    sumOver (children.map fun c => Elem.m2m level p c.1 c.2) (cM w L po s lv i) =
+    sumOver (children.map fun c => Elem.m2m level p c.1 c.2) (cM w L po' s lv i) =
       if (level, p) = (lv, i) then (children.map fun c => s.m (level+1) c.1).sum else 0 := by
   induction children with
   | nil => simp [sumOver]
@@ -113,23 +114,23 @@ theorem sum_children_m2m (s : State) (level p lv i : Nat) (children : List (Nat 
 
 /-- **M2M phase of one level**: every call reads level `ℓ+1` and writes level `ℓ` -/
 theorem phase_m2m (ℓ : Nat) (cs : List Call) (hcs : ∀ c ∈ cs, ∃ p ch, c = .m2m ℓ p ch) (s : State) :
-    (∀ lv i, (applyCalls w L po po s cs).m lv i = s.m lv i + sumOver (cs.flatMap elemsOfCall) (cM w L po s lv i)) ∧
-    (∀ lv i, (applyCalls w L po po s cs).l lv i = s.l lv i) ∧ (∀ p, (applyCalls w L po po s cs).r p = s.r p) := by
+    (∀ lv i, (applyCalls w L po po' s cs).m lv i = s.m lv i + sumOver (cs.flatMap elemsOfCall) (cM w L po' s lv i)) ∧
+    (∀ lv i, (applyCalls w L po po' s cs).l lv i = s.l lv i) ∧ (∀ p, (applyCalls w L po po' s cs).r p = s.r p) := by
   induction cs generalizing s with
   | nil => simp [applyCalls, sumOver]
   | cons c cs ih =>
     obtain ⟨p, ch, rfl⟩ := hcs c (by simp)
-    obtain ⟨h1, h2, h3⟩ := ih (fun c hc => hcs c (by simp [hc])) (applyCall w L po po s (.m2m ℓ p ch))
+    obtain ⟨h1, h2, h3⟩ := ih (fun c hc => hcs c (by simp [hc])) (applyCall w L po po' s (.m2m ℓ p ch))
     simp only [applyCalls, List.foldl_cons] at h1 h2 h3 ⊢
     refine ⟨?_, ?_, ?_⟩
     · intro lv i
       rw [h1, List.flatMap_cons, sumOver_append]
-      have e1 : sumOver (elemsOfCall (.m2m ℓ p ch)) (cM w L po s lv i) =
-          if (ℓ, p) = (lv, i) then (ch.map fun c => s.m (ℓ+1) c.1).sum else 0 := sum_children_m2m w L po s ℓ p lv i ch
+      have e1 : sumOver (elemsOfCall (.m2m ℓ p ch)) (cM w L po' s lv i) =
+          if (ℓ, p) = (lv, i) then (ch.map fun c => s.m (ℓ+1) c.1).sum else 0 := sum_children_m2m w L po' s ℓ p lv i ch
       rw [e1]
       simp only [applyCall, addM_m]
-      have : sumOver (cs.flatMap elemsOfCall) (cM w L po (s.addM ℓ p ((ch.map fun c => s.m (ℓ+1) c.1).sum)) lv i) =
-          sumOver (cs.flatMap elemsOfCall) (cM w L po s lv i) := by
+      have : sumOver (cs.flatMap elemsOfCall) (cM w L po' (s.addM ℓ p ((ch.map fun c => s.m (ℓ+1) c.1).sum)) lv i) =
+          sumOver (cs.flatMap elemsOfCall) (cM w L po' s lv i) := by
         apply sumOver_congr
         intro e he
         rw [List.mem_flatMap] at he
@@ -156,13 +157,13 @@ theorem sum_srcs_m2l (s : State) (level t lv i : Nat) (srcs : List (Nat × Nat))
 
 /-- **M2L phase** (all levels): every call reads multipoles and writes locals -/
 theorem phase_m2l (cs : List Call) (hcs : ∀ c ∈ cs, ∃ lv t srcs, c = .m2l lv t srcs) (s : State) :
-    (∀ lv i, (applyCalls w L po po s cs).l lv i = s.l lv i + sumOver (cs.flatMap elemsOfCall) (cL s lv i)) ∧
-    (∀ lv i, (applyCalls w L po po s cs).m lv i = s.m lv i) ∧ (∀ p, (applyCalls w L po po s cs).r p = s.r p) := by
+    (∀ lv i, (applyCalls w L po po' s cs).l lv i = s.l lv i + sumOver (cs.flatMap elemsOfCall) (cL s lv i)) ∧
+    (∀ lv i, (applyCalls w L po po' s cs).m lv i = s.m lv i) ∧ (∀ p, (applyCalls w L po po' s cs).r p = s.r p) := by
   induction cs generalizing s with
   | nil => simp [applyCalls, sumOver]
   | cons c cs ih =>
     obtain ⟨level, t, srcs, rfl⟩ := hcs c (by simp)
-    obtain ⟨h1, h2, h3⟩ := ih (fun c hc => hcs c (by simp [hc])) (applyCall w L po po s (.m2l level t srcs))
+    obtain ⟨h1, h2, h3⟩ := ih (fun c hc => hcs c (by simp [hc])) (applyCall w L po po' s (.m2l level t srcs))
     simp only [applyCalls, List.foldl_cons] at h1 h2 h3 ⊢
     refine ⟨?_, ?_, ?_⟩
     · intro lv i
@@ -205,13 +206,13 @@ theorem sum_children_l2l (s : State) (level p lv i : Nat) (children : List (Nat 
 
 /-- **L2L phase of one level**: every call reads level `ℓ` and writes level `ℓ+1` -/
 theorem phase_l2l (ℓ : Nat) (cs : List Call) (hcs : ∀ c ∈ cs, ∃ p ch, c = .l2l ℓ p ch) (s : State) :
-    (∀ lv i, (applyCalls w L po po s cs).l lv i = s.l lv i + sumOver (cs.flatMap elemsOfCall) (cL s lv i)) ∧
-    (∀ lv i, (applyCalls w L po po s cs).m lv i = s.m lv i) ∧ (∀ p, (applyCalls w L po po s cs).r p = s.r p) := by
+    (∀ lv i, (applyCalls w L po po' s cs).l lv i = s.l lv i + sumOver (cs.flatMap elemsOfCall) (cL s lv i)) ∧
+    (∀ lv i, (applyCalls w L po po' s cs).m lv i = s.m lv i) ∧ (∀ p, (applyCalls w L po po' s cs).r p = s.r p) := by
   induction cs generalizing s with
   | nil => simp [applyCalls, sumOver]
   | cons c cs ih =>
     obtain ⟨p, ch, rfl⟩ := hcs c (by simp)
-    obtain ⟨h1, h2, h3⟩ := ih (fun c hc => hcs c (by simp [hc])) (applyCall w L po po s (.l2l ℓ p ch))
+    obtain ⟨h1, h2, h3⟩ := ih (fun c hc => hcs c (by simp [hc])) (applyCall w L po po' s (.l2l ℓ p ch))
     obtain ⟨f1, f2, f3⟩ := foldl_addL_children ch ℓ p s
     simp only [applyCalls, List.foldl_cons] at h1 h2 h3 ⊢
     refine ⟨?_, ?_, ?_⟩
@@ -243,18 +244,19 @@ end Tbfmm
 
 namespace Tbfmm
 
-variable (w : Nat → Nat) (L : Nat) (po : Nat → List Nat)
+variable (w : Nat → Nat) (L : Nat) (po po' : Nat → List Nat)
 
 /-- the calls of the result phases: L2P, mutual P2P, in-leaf P2P -/
 def isResultCall : Call → Prop
   | .l2p leaf parts => parts = po leaf
   | .p2p _ _ _ => True
   | .p2pInner _ => True
+  | .p2pTsm _ _ _ => True
   | _ => False
 
 theorem apply_result_call (c : Call) (hc : isResultCall po c) (s : State) :
-    (∀ p', (applyCall w L po po s c).r p' = s.r p' + sumOver (elemsOfCall c) (cR w L po s p')) ∧
-    (∀ lv i, (applyCall w L po po s c).m lv i = s.m lv i) ∧ (∀ lv i, (applyCall w L po po s c).l lv i = s.l lv i) := by
+    (∀ p', (applyCall w L po po' s c).r p' = s.r p' + sumOver (elemsOfCall c) (cR w L po po' s p')) ∧
+    (∀ lv i, (applyCall w L po po' s c).m lv i = s.m lv i) ∧ (∀ lv i, (applyCall w L po po' s c).l lv i = s.l lv i) := by
   cases c with
   | l2p leaf parts =>
     simp only [isResultCall] at hc
@@ -285,28 +287,35 @@ theorem apply_result_call (c : Call) (hc : isResultCall po c) (s : State) :
   | m2m _ _ _ => exact absurd hc (by simp [isResultCall])
   | m2l _ _ _ => exact absurd hc (by simp [isResultCall])
   | l2l _ _ _ => exact absurd hc (by simp [isResultCall])
-  | p2pTsm _ _ _ => exact absurd hc (by simp [isResultCall])
+  | p2pTsm src tgt code =>
+    obtain ⟨a1, a2, a3⟩ := foldl_addR_const (po tgt) (sumW w (po' src)) s
+    refine ⟨?_, ?_, ?_⟩
+    · intro p'
+      simp only [applyCall, elemsOfCall, sumOver_cons, sumOver_nil, cR, Nat.add_zero]
+      exact a1 p'
+    · intro lv i; simp only [applyCall]; exact a2 lv i
+    · intro lv i; simp only [applyCall]; exact a3 lv i
 
-theorem cR_congr (s s' : State) (hl : ∀ lv i, s'.l lv i = s.l lv i) (p' : Nat) (e : Elem) : cR w L po s' p' e = cR w L po s p' e := by
+theorem cR_congr (s s' : State) (hl : ∀ lv i, s'.l lv i = s.l lv i) (p' : Nat) (e : Elem) : cR w L po po' s' p' e = cR w L po po' s p' e := by
   cases e <;> simp [cR, hl]
 
 /-- **result phases** (L2P, P2P, in-leaf P2P, in any order): every call reads locals and particle data
     and adds to particle results -/
 theorem phase_results (cs : List Call) (hcs : ∀ c ∈ cs, isResultCall po c) (s : State) :
-    (∀ p', (applyCalls w L po po s cs).r p' = s.r p' + sumOver (cs.flatMap elemsOfCall) (cR w L po s p')) ∧
-    (∀ lv i, (applyCalls w L po po s cs).m lv i = s.m lv i) ∧ (∀ lv i, (applyCalls w L po po s cs).l lv i = s.l lv i) := by
+    (∀ p', (applyCalls w L po po' s cs).r p' = s.r p' + sumOver (cs.flatMap elemsOfCall) (cR w L po po' s p')) ∧
+    (∀ lv i, (applyCalls w L po po' s cs).m lv i = s.m lv i) ∧ (∀ lv i, (applyCalls w L po po' s cs).l lv i = s.l lv i) := by
   induction cs generalizing s with
   | nil => simp [applyCalls, sumOver]
   | cons c cs ih =>
-    obtain ⟨c1, c2, c3⟩ := apply_result_call w L po c (hcs c (by simp)) s
-    obtain ⟨h1, h2, h3⟩ := ih (fun c hc => hcs c (by simp [hc])) (applyCall w L po po s c)
+    obtain ⟨c1, c2, c3⟩ := apply_result_call w L po po' c (hcs c (by simp)) s
+    obtain ⟨h1, h2, h3⟩ := ih (fun c hc => hcs c (by simp [hc])) (applyCall w L po po' s c)
     simp only [applyCalls, List.foldl_cons] at h1 h2 h3 ⊢
     refine ⟨?_, ?_, ?_⟩
     · intro p'
       rw [h1, c1, List.flatMap_cons, sumOver_append]
-      have : sumOver (cs.flatMap elemsOfCall) (cR w L po (applyCall w L po po s c) p') =
-          sumOver (cs.flatMap elemsOfCall) (cR w L po s p') :=
-        sumOver_congr _ _ _ (fun e _ => cR_congr w L po s _ c3 p' e)
+      have : sumOver (cs.flatMap elemsOfCall) (cR w L po po' (applyCall w L po po' s c) p') =
+          sumOver (cs.flatMap elemsOfCall) (cR w L po po' s p') :=
+        sumOver_congr _ _ _ (fun e _ => cR_congr w L po po' s _ c3 p' e)
       rw [this]; omega
     · intro lv i; rw [h2, c2]
     · intro lv i; rw [h3, c3]
